@@ -7,6 +7,10 @@ from . import core
 
 PATS = ["/", "/*", "/a", "/ab", "/abc", "/abc/d", "/:p", "/a/:p?", "/abc/:p"]
 PATHS = ["/", "/a", "/a/", "/ab", "/abc", "/abc/d", "/abc/x", "/a/x", "/zz", "/ABC"]
+EQUIV = [("/abc", "/ABC", ["nocase"]), ("/abc", "/%61bc", ["unesc"]), ("/abc", "/%41bc", ["unesc", "nocase"]), ("/abc", "/%41%42C", ["unesc", "nocase"]),
+         ("/abc/d", "/abc/%44", ["unesc", "nocase"]), ("/abc/d", "/abc/%64", ["unesc"]), ("/abc/d", "/ABC/D", ["nocase"]), ("/abc", "/abc/", ["nonstrict"])]
+NORM_PATS = ["/abc", "/abc/d", "/abc/:p", "/:p", "/*"]
+NORM_PATHS = ["/abc", "/ABC", "/%61bc", "/%41bc", "/%41%42C", "/abc/", "/abc/d", "/abc/%44", "/abc/%64", "/ABC/D"]
 DEFAULT = {"cs": False, "strict": False, "unesc": False}
 ALLON = {"cs": True, "strict": True, "unesc": True}
 
@@ -19,7 +23,7 @@ def tla_set(xs):
     return "{" + ", ".join(tla_str(x) for x in xs) + "}"
 
 
-def variant(run, binary, cfg, ctx, pats, paths, max_routes, tag, multi=False):
+def variant(run, binary, cfg, ctx, pats, paths, max_routes, tag, multi=False, vias=("app",)):
     # 1. measure the individual match relation on the real code
     inp = os.path.join(run.work, "c01_in_%s.json" % tag)
     outp = os.path.join(run.work, "c01_measure_%s.txt" % tag)
@@ -42,9 +46,30 @@ def variant(run, binary, cfg, ctx, pats, paths, max_routes, tag, multi=False):
             'D_RwTargets == {"/abc"}',
             'D_OvTargets == {"POST"}',
             'D_MultiKinds == %s' % ('{"GET+POST"}' if multi else '{}'),
+            'D_Vias == ' + tla_set(vias),
+            'D_CfgFlags == ' + tla_set([f for f, on in (("nocase", not cfg["cs"]), ("unesc", cfg["unesc"]), ("nonstrict", not cfg["strict"])) if on]),
             "===="]
-    r = run.tlc_must_pass("MC_Router", "MC_Router.cfg", workers=12, heap="8g", timeout=3000,
-                          defines={"Router_data.tla": "\n".join(data) + "\n"}, name="Router_" + tag)
+    r = run.tlc("MC_Router", "MC_Router.cfg", workers=12, heap="8g", timeout=3000,
+                defines={"Router_data.tla": "\n".join(data) + "\n"}, name="Router_" + tag)
+    if "Invariant NormRespected is violated" in r["out"] or "invariant of NormRespected is equal to FALSE" in r["out"]:
+        # the measured relation itself breaks the configuration's equalities: name the witnesses (same table as EquivTable in Router.tla)
+        ms = set(tuple(t) for t in triples)
+        flags = set(f for f, on in (("nocase", not cfg["cs"]), ("unesc", cfg["unesc"]), ("nonstrict", not cfg["strict"])) if on)
+        viol = []
+        for a, b, needs in EQUIV:
+            if set(needs) <= flags and a in paths and b in paths:
+                for pat in pats:
+                    for k in ("use", "ep"):
+                        if ((pat, k, a) in ms) != ((pat, k, b) in ms):
+                            viol.append({"check": "equal-paths-handled-differently", "prop": "C01", "cfg": cfg, "ctx": ctx, "route": k + " " + pat,
+                                         "path_a": a, "path_b": b, "equal_because": needs,
+                                         "observed": {"a_handled": (pat, k, a) in ms, "b_handled": (pat, k, b) in ms}})
+        if not viol:
+            raise core.Inconclusive("NormRespected violated but no witness found")
+        return 0, len(triples), viol, [], {"cases": 0, "distinct_ran": 0, "with_rewrite_or_override": 0, "multi_handler": 0, "n405": 0, "n404": 0,
+                                           "registrations_through_group_or_list": 0}
+    if r["rc"] != 0:
+        raise core.Inconclusive("TLC run Router_%s failed rc=%d\n%s" % (tag, r["rc"], "\n".join(r["out"].splitlines()[-40:])))
     cases = os.path.join(run.work, "c01_cases_%s.ndjson" % tag)
     n = core.write_cases(core.parse_cases(r["out"]), cases)
     if n == 0:
@@ -74,7 +99,14 @@ def check(run):
                     # three registrations incl. multi-method ones over a tiny pool: the smallest tables in which an endpoint, a later
                     # middleware and another method's endpoint meet, or a multi-method registration is followed by a duplicate
                     (DEFAULT, "default", ["/", "/a"], ["/", "/a", "/abc"], 3, "three_small", True),
-                    (DEFAULT, "custom", ["/", "/a"], ["/", "/abc"], 3, "three_small_custom", True)]
+                    (DEFAULT, "custom", ["/", "/a"], ["/", "/abc"], 3, "three_small_custom", True),
+                    # spellings of a path that the configuration declares equal (NormRespected), one registration
+                    (DEFAULT, "default", NORM_PATS, NORM_PATHS, 1, "norm_def"),
+                    ({"cs": False, "strict": True, "unesc": True}, "default", NORM_PATS, NORM_PATHS, 1, "norm_unesc"),
+                    ({"cs": True, "strict": False, "unesc": True}, "custom", NORM_PATS, NORM_PATHS, 1, "norm_unesc_cs_custom"),
+                    # the way a registration is written: through a group, with the prefix in a list
+                    (DEFAULT, "default", ["/", "/a", "/abc/d", "/abc/:p"], ["/", "/a", "/abc", "/abc/d", "/abc/x", "/zz"], 2, "vias", False, ("app", "group", "list", "grouplist")),
+                    (ALLON, "custom", ["/a", "/abc/d", "/:p"], ["/a", "/abc", "/abc/d", "/abc/x"], 2, "vias_custom", False, ("app", "group", "list", "grouplist"))]
     else:
         variants = []
         i = 0
@@ -87,16 +119,22 @@ def check(run):
         sub = ["/", "/a", "/abc", "/:p", "/abc/:p"]
         variants.append((DEFAULT, "default", sub, ["/", "/a", "/abc", "/abc/x", "/zz"], 3, "three"))
         variants.append((DEFAULT, "default", ["/", "/a", "/:p"], ["/", "/a", "/abc"], 3, "three_multi", True))
+        for j, (cs, st, un, ctx) in enumerate((c, t, u, x) for c in (False, True) for t in (False, True) for u in (False, True) for x in ("default", "custom")):
+            variants.append(({"cs": cs, "strict": st, "unesc": un}, ctx, NORM_PATS, NORM_PATHS, 2, "norm%d" % j))
+        variants.append((DEFAULT, "default", PATS, PATHS, 2, "vias", False, ("app", "group", "list", "grouplist")))
+        variants.append((ALLON, "custom", PATS[:6] + PATS[7:8], PATHS, 2, "vias_custom", False, ("app", "group", "list", "grouplist")))
+        variants.append((DEFAULT, "default", ["/a", "/abc/d", "/abc/:p"], ["/a", "/abc", "/abc/d", "/abc/x"], 3, "vias_three", True, ("app", "group", "list", "grouplist")))
     tot = collections.Counter()
     for v in variants:
         cfg, ctx, pats, paths, mr, tag = v[:6]
-        n, nm, viol, samples, summary = variant(run, binary, cfg, ctx, pats, paths, mr, tag, multi=len(v) > 6 and v[6])
+        n, nm, viol, samples, summary = variant(run, binary, cfg, ctx, pats, paths, mr, tag, multi=len(v) > 6 and v[6],
+                                                   vias=v[7] if len(v) > 7 else ("app",))
         for v in viol:
             run.violation(v)
         run.evaluations += n
         run.traces += n
         run.nontrivial += summary["distinct_ran"]
-        for k in ("with_rewrite_or_override", "multi_handler", "n405", "n404"):
+        for k in ("with_rewrite_or_override", "multi_handler", "n405", "n404", "registrations_through_group_or_list"):
             tot[k] += summary[k]
         tot["measured_match_pairs"] += nm
         for s in samples[:2]:
@@ -104,7 +142,7 @@ def check(run):
     run.exhaustive = True
     run.rule = ("the individual match relation is measured on the real router (one app per route); TLC enumerates every table of "
                 "<= MaxRoutes registrations over {use, GET, POST} x pattern pool x behaviours {next, stop, rewrite, method override (middleware only)} "
-                "x every request (3 methods x path pool) and prescribes handler sequence, status and Allow; each scenario is replayed on a "
+                "x the way each registration is written (directly, through a group, with the prefix in a list: extra variants) x every request (3 methods x path pool) and prescribes handler sequence, status and Allow; each scenario is replayed on a "
                 "fresh real app. Non-trivial = scenarios in which at least one handler ran.")
     run.extra.update(dict(tot))
     run.extra["violations_by_check"] = dict(collections.Counter(v["check"] for v in run.violations))
